@@ -208,6 +208,49 @@ def Flags.effective (f : Flags) (V : Int) (squareVoxels phiOffsetZero tof origin
     { d90 := false, d180 := false, swapSeg := false, swapS := false, shiftZ := f.shiftZ }
   else { d90 := d90, d180 := d180, swapSeg := swapSeg, swapS := swapS, shiftZ := f.shiftZ }
 
+/-! ### the constructor's x/y voxel-size guard
+
+`if (fabs(get_grid_spacing()[2] - get_grid_spacing()[3]) > 2.E-3F) do_symmetry_90degrees_min_phi = false;`
+— src/recon_buildblock/DataSymmetriesForBins_PET_CartesianGrid.cxx:301.  The two grid spacings are `float`s
+(`[2]` = y, `[3]` = x), their difference is a `float` subtraction (round to nearest even), `fabs` and the comparison
+with the `float` literal are exact.  Voxel sizes are carried as the rationals the floats are. -/
+
+/-- `2^e` as a rational -/
+def pow2 (e : Int) : Rat := if e ≥ 0 then ((2 ^ e.toNat : Nat) : Rat) else 1 / ((2 ^ (-e).toNat : Nat) : Rat)
+
+def qabs (q : Rat) : Rat := if q < 0 then -q else q
+
+/-- `⌊log₂ q⌋` for `q > 0`: with `2^a ≤ num < 2^(a+1)`, `2^b ≤ den < 2^(b+1)` it is `a − b` or `a − b − 1` -/
+def ilog2 (q : Rat) : Int :=
+  let e0 : Int := (Nat.log2 q.num.natAbs : Int) - (Nat.log2 q.den : Int)
+  if pow2 e0 ≤ q then e0 else e0 - 1
+
+/-- nearest integer of `q ≥ 0`, ties to even -/
+def roundHalfEven (q : Rat) : Int :=
+  let f := q.floor
+  let r := q - (f : Rat)
+  if r < 1 / 2 then f else if 1 / 2 < r then f + 1 else if f % 2 = 0 then f else f + 1
+
+/-- IEEE-754 binary32 round-to-nearest-even of a rational (normal and subnormal range: the spacing of the floats around
+    `q` is `2^(max(⌊log₂|q|⌋, −126) − 23)`; overflow to infinity is not modelled) -/
+def f32Round (q : Rat) : Rat :=
+  if q = 0 then 0 else
+  let a := qabs q
+  let e := if ilog2 a < -126 then -126 else ilog2 a
+  let quantum := pow2 (e - 23)
+  let r := (roundHalfEven (a / quantum) : Rat) * quantum
+  if q < 0 then -r else r
+
+/-- the `float` literal `2.E-3F` = `0x1.0624dep-9` -/
+def twoEm3F : Rat := 8589935 / 4294967296
+
+/-- the guard leaves `do_symmetry_90degrees_min_phi` alone: `!(fabs(y_spacing - x_spacing) > 2.E-3F)` -/
+def squareVoxels (vy vx : Rat) : Bool := !decide (twoEm3F < qabs (f32Round (vy - vx)))
+
+/-- the constructor's effective switches from the voxel sizes of the image (`Flags.effective` with the guard evaluated) -/
+def Flags.effectiveVox (f : Flags) (V : Int) (vy vx : Rat) (phiOffsetZero tof originXYZero : Bool) : Flags :=
+  f.effective V (squareVoxels vy vx) phiOffsetZero tof originXYZero
+
 /-- axial description of the data and the image needed by `find_relation_between_coordinate_systems` -/
 structure AxGeo where
   nppr : Int                 -- `num_planes_per_scanner_ring`  = round(ring spacing / z voxel size)
